@@ -138,6 +138,9 @@ fn main() {
         machinery(&format!("reference grammar disagrees with std on menu tokens: {:?}", bad));
     }
 
+    if tier == Tier::Thorough {
+        DISTINCT_CAP.store(1 << 27, Ordering::Relaxed);
+    }
     (prop.run)(&run);
 
     std::process::exit(finish(&run, merge));
